@@ -48,7 +48,10 @@ def rand_args(rng):
         elif r < 0.8:
             args.append(TagList("x", Tag("i")))
         else:
-            args.append({rng.choice(["class", "id", "data_x", "style_"]): rng.choice(["v", 1, True, None, False, HTML("<")])})
+            # attribute dicts are attributes and nothing else, whatever their keys are called
+            args.append({rng.choice(["class", "id", "data_x", "style_", "_add_ws", "add_ws", "_name", "name", "children",
+                                     "attrs", "_add_ws_", "_", "self"]):
+                         rng.choice(["v", 1, True, None, False, HTML("<"), "no", 0])})
     kw = {}
     for _ in range(rng.choice([0, 0, 1, 2])):
         kw[rng.choice(["class_", "id", "data_y", "for_", "aria_label"])] = rng.choice(["w", 2, True, None, HTML("&")])
@@ -134,6 +137,18 @@ def run(ctx: Ctx) -> None:
                 if not same:
                     ctx.violation(f"{mn}.{n}(*args, **kw) differs from Tag('{n}', *args, _add_ws=default, **kw)",
                                   [mn, n, repr(a1), repr(k1)], {"impl_output": repr(got), "expected": repr(want)})
+                # the element name and the whitespace flag depend on the function and the _add_ws
+                # keyword only -- never on the children or attributes passed
+                flag_want = want_ws if explicit is None else explicit
+                if got[0] == "ok" and (not isinstance(got[1], Tag) or got[1].name != n or got[1].add_ws is not flag_want):
+                    ctx.violation(f"{mn}.{n}(*args, **kw): element name / whitespace flag is not the function's name and "
+                                  f"the documented default (or the explicit _add_ws) for some argument list",
+                                  [mn, n, repr(a1), repr(k1), repr(explicit)],
+                                  {"impl_output": repr((got[1].name, got[1].add_ws)) if isinstance(got[1], Tag) else repr(got),
+                                   "expected": repr((n, flag_want))})
+                if got[0] != "ok":
+                    ctx.violation(f"{mn}.{n}(*args, **kw) raised on a valid argument list", [mn, n, repr(a1), repr(k1)],
+                                  {"impl_output": repr(got)})
     for n in TOPLEVEL:
         ctx.count(("toplevel", n), True, "toplevel")
         if getattr(htmltools, n, None) is not mods["tags"].get(n):
